@@ -25,6 +25,31 @@ def work(chunk, st, second):
                 account(st, arch, short, p2, r2)
 
 
+def work_paths(chunk, st):
+    """the same single-fault plans through the other code paths an audit can take: the multi-target worker (-T) and JSON output"""
+    from props import c02
+    for arch, short, plan in chunk:
+        if F.ARCHETYPES[arch]['role'] == 'client':
+            continue
+        res = explore.run_plan(F.scenario(arch, short, via_targets_file=True), plan)
+        fk = tuple(f[0] for _k, f in plan)
+        st.execution(res.world, outcome=(arch, 'T', res.status, bool(res.hang), fk), root=(arch, short, plan, 'T'), nontrivial=(arch, plan, 'T'), detail='light')
+        for sig, detail in F.judge_c09(res, arch, plan):
+            st.violation('%s:multi-target-path:%s' % (arch, sig), {'arch': arch, 'short': short, 'plan': plan, 'what': detail, 'status': res.status, 'stdout_tail': res.stdout[-300:]})
+        rj = explore.run_plan(F.scenario(arch, short, extra_opts=['-j']), plan)
+        st.execution(rj.world, outcome=(arch, 'json', rj.status, bool(rj.hang), fk), root=(arch, short, plan, 'json'), nontrivial=(arch, plan, 'json'), detail='light')
+        ref = explore.run_plan(F.scenario(arch, short), plan)
+        d = {'arch': arch, 'short': short, 'plan': plan, 'status': rj.status, 'text_status': ref.status, 'stdout_tail': rj.stdout[-300:]}
+        if rj.hang or rj.exc or rj.status not in (0, 1, 2, 3):
+            st.violation('%s:json-path:crash-hang-or-status-%s:%s' % (arch, rj.status, F._trace_site(rj.stdout + rj.stderr)), dict(d, hang=rj.hang, exc=rj.exc))
+        elif rj.status != ref.status:
+            st.violation('%s:json-path:status-differs-from-text-run' % arch, d)
+        else:
+            has, _complete = c02._json_has_report(rj.stdout, F.advertised(rj, arch))
+            if has != report.TextReport(ref.stdout).has_alg_report():
+                st.violation('%s:json-path:report-shown-differs-from-text-run' % arch, d)
+
+
 def account(st, arch, short, plan, res):
     fk = tuple(f[0] for _k, f in plan)
     st.execution(res.world, outcome=(arch, res.status, bool(res.hang), fk), root=(arch, short, plan),
@@ -191,6 +216,8 @@ def run(tier, seed):
         par.pmap(work, rest, extra=(False,), stats=st)
     else:
         par.pmap(work, all_tasks, extra=(False,), stats=st)
+    paths = [t for t in all_tasks if t[2][0][1][0] not in ('split', 'seg1') and (t[2][0][1][0] not in ('trunc_close', 'trunc_stall') or t[2][0][1][1] == 0)]
+    par.pmap(work_paths, paths, stats=st, chunk=20)
     par.pmap(work_degenerate, degenerate_gex_tasks(), stats=st, procs=1)
     check_client_environment(st)
     par.pmap(work_banner, banner_content_tasks(), stats=st, chunk=8)
@@ -229,7 +256,7 @@ def run(tier, seed):
              'D2 group exchange as probe kex, E/E1 SSH-1, E2 version mismatch on every connection, F SSH-1.99, G client role): cooperative run, then every (connection, message, fault) '
              'of the menu (truncate+close / truncate+stall at byte offsets, reset, garbage, every length field x5 values, wrong type, '
              'debug x1..3, duplicate, extra lines, split at every offset, 1-byte segments, refuse/timeout at connect); '
-             'thorough adds all pairs with a second message-level fault on a later connection; degenerate GEX groups; bind failures of a client audit; '
+             'thorough adds all pairs with a second message-level fault on a later connection; the message-level plans again through the -T worker path and with -j; degenerate GEX groups; bind failures of a client audit; '
              '%d identification strings (recognised and other software names x unexpected version strings x SSH-2.0/1.99 x both roles x text/JSON); '
              'non-trivial = at least one deviation' % len(banner_content_tasks()),
         assumptions=['environment model: mc/vnet.py, mc/peer.py (validated against real loopback TCP by mc/realnet.py when traces_validated>0)',
